@@ -140,7 +140,8 @@ def run(tier="quick", prop="C01", units=None, extra_rules=True):
     chk.count("methods_analysed", nf, floor=int(30 * len(units)))
     chk.count("undecided_obligations", nund)
     chk.count("search_functions", n2)
-    chk.count("assert_guards", n3, floor=25 * len(units))
+    # ASSERT compiles to nothing in a DEBUG=0 configuration: the guard census is an anchor only where ASSERT exists
+    chk.count("assert_guards", n3, floor=(25 * len(units)) if str(prog.config.get("DEBUG", "4")) != "0" else None)
     chk.count("reader_functions", nr)
     if samples:
         chk.note("undecided (loop summarisation too weak; not reported as violations): " + " | ".join(samples))
